@@ -157,6 +157,9 @@ class World:
         self.objs = {}
         self.client = "shared"
         self.form = 0
+        self.dead_ids = {}
+        self.id_reuse = 0
+        self.pending_drop = False
         from .runtime import DEFAULT_NAMES
         inv = {}
         for k, v in names.items():
@@ -181,8 +184,28 @@ class World:
     def _get(self, key, make):
         key = self._key(*key)
         if key not in self.objs:
-            self.objs[key] = make()
+            self.objs[key] = self._adversarial_new(key, make)
         return self.objs[key]
+
+    def _adversarial_new(self, key, make):
+        """address-space seam: when derivation objects of this kind have been garbage
+        collected earlier in the session, construct the new object at one of their old
+        addresses if the allocator can be brought to do so (any address reuse is legal
+        for CPython; state keyed by id() or by a default hash must not survive it)"""
+        dead = self.dead_ids.get(key[0])
+        # only the address of a dead object with *other* constructor arguments is interesting
+        if not dead or all(k == key for k in dead.values()):
+            return make()
+        ballast = []
+        obj = None
+        for _ in range(2500):
+            obj = make()
+            if dead.get(id(obj), key) != key:
+                self.id_reuse += 1
+                break
+            ballast.append(obj)
+        del ballast
+        return obj
 
     def op(self, v):
         from adcgen import Operators
@@ -260,6 +283,28 @@ class World:
         del self.objs[k]
         return str(k)
 
+    def drop_all(self):
+        """the user throws every derivation object away (end of one calculation in a long
+        session) - they are garbage collected, later requests construct new ones, possibly at
+        the same addresses"""
+        # deferred to the start of the next request, so that nothing (not even the
+        # harness' own artefact extraction) allocates between the deallocation and the
+        # construction of the next calculation's objects
+        self.pending_drop = True
+        return len(self.objs)
+
+    def flush_drop(self):
+        if not self.pending_drop:
+            return
+        self.pending_drop = False
+        if not self.objs:
+            return
+        import gc
+        gc.collect()
+        for k, o in self.objs.items():
+            self.dead_ids.setdefault(k[0], {})[id(o)] = k
+        self.objs.clear()
+
     def cache_fill_state(self):
         """digest input: which (object, method, args) memo entries exist right now"""
         out = []
@@ -285,6 +330,7 @@ def generate(seed, run, tier="quick", overrides=None, template_ids=None):
     faultfree = (run % 3 == 0)
     params = {
         "shared": prng.random() < 0.6,
+        "ephemeral": prng.random() < 0.12,
         "dummy_base": prng.randrange(10 ** 6, 9 * 10 ** 6),
         "dummy_count": prng.choice([0, 0, 17, 1000, 123456]),
         "heap_skew": prng.choice([0, 100, 5000, 40000]),
@@ -315,6 +361,7 @@ def generate(seed, run, tier="quick", overrides=None, template_ids=None):
             steps.append(rng.choice([
                 {"op": "dropcache", "pick": rng.randrange(1 << 20)},
                 {"op": "newobj", "pick": rng.randrange(1 << 20)},
+                {"op": "dropall"},
                 {"op": "sympy.clear_cache"},
                 {"op": "dummy.skew", "n": rng.choice([1, 7, 200, 10 ** 5])},
                 {"op": "clock.jump", "dt": rng.choice([-5.0, 0.0, 86400.0])}]))
@@ -397,6 +444,11 @@ class C19Session:
     def _call(self, t, form=0):
         self.world.client = t["client"]
         self.world.form = form
+        if self.params.get("ephemeral"):
+            # a helper function that builds its Operators / GroundState / ... locally:
+            # everything of the previous request is garbage by now
+            self.world.pending_drop = True
+        self.world.flush_drop()
         try:
             return t["fn"](self.world)
         finally:
@@ -546,6 +598,8 @@ class C19Session:
             return {"dropped": self.world.drop_cache(st["pick"])}
         if op == "newobj":
             return {"replaced": self.world.new_obj(st["pick"])}
+        if op == "dropall":
+            return {"dropped": self.world.drop_all()}
         if op == "sympy.clear_cache":
             from sympy.core.cache import clear_cache
             clear_cache()
@@ -683,6 +737,7 @@ def execute(job):
                             "callers": sorted(clock.callers)},
                   "reg_states": sorted({e["reg"] for e in sess.events}),
                   "fill_states": sess.fill_states, "walls": sess.walls,
+                  "id_reuse": sess.world.id_reuse,
                   "schedule_digest": digest(steps, 8)},
         "wall_s": runtime.REAL_PERF() - t0,
         "pid_image": {"hashseed": os.environ.get("PYTHONHASHSEED")},
